@@ -133,7 +133,12 @@ pub fn run_case(c: &J) -> J {
             };
             *classes.entry(cls.to_string()).or_insert(0) += 1;
         }
-        runs.push(json!({"ok": if res.is_ok() {1} else {0}, "err": res.err().unwrap_or_default(), "digest": digest(&sink.contents()), "classes": classes, "events": evs.len()}));
+        let mut run = json!({"ok": if res.is_ok() {1} else {0}, "err": res.err().unwrap_or_default(), "digest": digest(&sink.contents()), "classes": classes, "events": evs.len()});
+        if cfg["trace"].as_i64().unwrap_or(0) == 1 {
+            // the recorded hook events themselves (for trace validation against Pipeline.tla)
+            run["trace"] = J::Array(evs.iter().map(|(n, a, b)| json!([n, a, b])).collect());
+        }
+        runs.push(run);
     }
     json!({"result": "ok", "runs": runs})
 }
